@@ -110,7 +110,7 @@ func (match6Engine) Run(ctx *fw.Ctx, cs any) {
 				xid++
 				var opts []pkt.Opt6
 				if hasCID {
-					opts = append(opts, pkt.O6(pkt.OptClientID6, randDUID(rng)))
+					opts = append(opts, pkt.O6(pkt.OptClientID6, clientDUID6(rng)))
 				}
 				if rapid {
 					opts = append(opts, pkt.O6(pkt.OptRapidCommit, nil))
@@ -157,7 +157,7 @@ func (match6Engine) Run(ctx *fw.Ctx, cs any) {
 	for _, typ := range []byte{1, 3, 4, 5, 6, 8, 11} {
 		for depth := 1; depth <= 3; depth++ {
 			xid++
-			msg := pkt.Msg6(typ, xid, []pkt.Opt6{pkt.O6(pkt.OptClientID6, randDUID(rng)), pkt.ORO(23)})
+			msg := pkt.Msg6(typ, xid, []pkt.Opt6{pkt.O6(pkt.OptClientID6, clientDUID6(rng)), pkt.ORO(23)})
 			for d := 0; d < depth; d++ {
 				rt := byte(12)
 				if d == depth-1 {
@@ -252,4 +252,13 @@ func (match6Engine) Run(ctx *fw.Ctx, cs any) {
 	if ctx.WantSample("C12") {
 		ctx.Sample("C12", map[string]any{"chain": conf, "datagrams": len(ms), "matrix": "254 types x client-id x rapid-commit, each also relayed at depth 0-4", "generated": c.NRand})
 	}
+}
+
+// clientDUID6: any DUID; one client in ten identifies itself with exactly the DUID the server is configured
+// with (a host that runs client and server with one DUID, a clone): client identifiers are opaque to a server.
+func clientDUID6(rng *rand.Rand) []byte {
+	if rng.Intn(10) == 0 {
+		return pkt.DUIDLL([]byte{0x00, 0xde, 0xad, 0xbe, 0xef, 0x00})
+	}
+	return randDUID(rng)
 }
